@@ -36,6 +36,29 @@ def iter_cases(ctx, conf, init_variants=True, want_random=True, with_reuse=True)
                 yield G.nth_string(s), params, tok.KIND_NAMES[c % nk], tok.DELIVERY[c % nd], "exhaustive_init"
             if ctx.out_of_time():
                 return
+    # tuples outside the usual grid that the REAL constructor accepts (negative silence / init values, and whatever a
+    # changed constructor lets through): every token is still bound by the properties
+    import itertools
+
+    from auditok.core import StreamTokenizer
+
+    oc = 0
+    for tup in itertools.product((0, 1, 2), (1, 2, 3), (-2, -1, 0, 1), (-1, 0, 1, 2), (-1, 0, 1), G.MODES):
+        oc += 1
+        if not ctx.mine(oc):
+            continue
+        min_len, max_len, max_sil, init_min, ims, mode = tup
+        if not init_variants and init_min > 1:
+            continue
+        if min_len >= 1 and max_sil >= 0 and init_min >= 0 and ims >= 0:
+            continue  # the ordinary grid covers these
+        try:
+            StreamTokenizer(lambda f: True, min_len, max_len, max_sil, init_min=init_min, init_max_silence=ims, mode=mode)
+        except Exception:
+            continue
+        for s_ in range(G.count_upto(6)):
+            c += 1
+            yield G.nth_string(s_), tup, tok.KIND_NAMES[c % nk], tok.DELIVERY[c % nd], "offgrid"
     # recipes on small and on random larger tuples
     rng = ctx.rng("recipes")
     tuples = [p for i, p in enumerate(plain + (G.param_tuples(4, init=True) if init_variants else [])) if ctx.mine(i)]
